@@ -444,6 +444,93 @@ example : weighted ({ value := .num 0, truth := 1/2 } : Default Rat)
      { sel := true, imp := 1, truth := .num (1/2), value := .num 40 }]
     = { value := .num 20, truth := .num (3/4) } := by decide +kernel
 
+/-! ## the weighted output is an average -/
+
+
+theorem sums_between (l : List (Input Rat)) (lo hi : Rat)
+    (h : ∀ i ∈ l, 0 ≤ i.imp ∧ lo ≤ numVal i ∧ numVal i ≤ hi) :
+    0 ≤ sumCnf l ∧ lo * sumCnf l ≤ sumVal l ∧ sumVal l ≤ hi * sumCnf l := by
+  induction l with
+  | nil => simp [sumCnf, sumVal]
+  | cons i rest ih =>
+    obtain ⟨h0, h1, h2⟩ := ih (fun x hx => h x (by simp [hx]))
+    obtain ⟨hi0, hi1, hi2⟩ := h i (by simp)
+    have ht := (C45_fixTruth_range i.truth).1
+    have hw : 0 ≤ i.imp * fixTruth i.truth := Rat.mul_nonneg hi0 ht
+    have ha : 0 ≤ i.imp * fixTruth i.truth * (numVal i - lo) := Rat.mul_nonneg hw (by grind)
+    have hb : 0 ≤ i.imp * fixTruth i.truth * (hi - numVal i) := Rat.mul_nonneg hw (by grind)
+    simp only [sumCnf, sumVal, List.map_cons, List.sum_cons] at *
+    refine ⟨by grind, by grind, by grind⟩
+
+/-- the weighted value is an average: with non-negative importances it lies between the smallest
+and the largest selected value -/
+theorem C45_weighted_value_between (d : Default Rat) (ins : List (Input Rat)) (lo hi : Rat) (v t : Rat)
+    (himp : ∀ i ∈ selected ins, 0 ≤ i.imp)
+    (hval : ∀ i ∈ selected ins, lo ≤ numVal i ∧ numVal i ≤ hi)
+    (hout : weighted d ins = { value := .num v, truth := .num t })
+    (hnd : weighted d ins ≠ d.out) : lo ≤ v ∧ v ≤ hi := by
+  rw [C45_weighted_average_iff_exceeds] at hout hnd
+  split at hout
+  · rename_i hc
+    obtain ⟨_, hc0, _, _⟩ := hc
+    have := sums_between (selected ins) lo hi (fun i hi' => ⟨himp i hi', hval i hi'⟩)
+    obtain ⟨h0, h1, h2⟩ := this
+    have hpos : 0 < sumCnf (selected ins) := by grind
+    have hv : v = sumVal (selected ins) / sumCnf (selected ins) := by
+      have := congrArg Out.value hout
+      simp at this; exact this.symm
+    rw [hv]
+    constructor
+    · apply Rat.not_lt.mp
+      intro hlt
+      have := (Rat.div_lt_iff hpos).mp hlt
+      grind
+    · apply Rat.not_lt.mp
+      intro hlt
+      have := (Rat.lt_div_iff hpos).mp hlt
+      grind
+  · exact absurd (by rename_i hc; simp [hc]) hnd
+
+
+
+theorem cnf_le_imp (l : List (Input Rat)) (h : ∀ i ∈ l, 0 ≤ i.imp) :
+    0 ≤ sumCnf l ∧ sumCnf l ≤ sumImp l := by
+  induction l with
+  | nil => simp [sumCnf, sumImp]
+  | cons i rest ih =>
+    obtain ⟨h0, h1⟩ := ih (fun x hx => h x (by simp [hx]))
+    have hi0 := h i (by simp)
+    have ht := C45_fixTruth_range i.truth
+    have ha : 0 ≤ i.imp * fixTruth i.truth := Rat.mul_nonneg hi0 ht.1
+    have hb : 0 ≤ i.imp * (1 - fixTruth i.truth) := Rat.mul_nonneg hi0 (by grind)
+    simp only [sumCnf, sumImp, List.map_cons, List.sum_cons] at *
+    refine ⟨by grind, by grind⟩
+
+/-- with non-negative importances the weighted truth is again a truth: it lies in (0, 1] -/
+theorem C45_weighted_truth_range (d : Default Rat) (ins : List (Input Rat)) (v : Val Rat) (t : Rat)
+    (himp : ∀ i ∈ selected ins, 0 ≤ i.imp)
+    (hout : weighted d ins = { value := v, truth := .num t })
+    (hnd : weighted d ins ≠ d.out) : 0 < t ∧ t ≤ 1 := by
+  rw [C45_weighted_average_iff_exceeds] at hout hnd
+  split at hout
+  · rename_i hc
+    obtain ⟨_, hc0, hw0, _⟩ := hc
+    obtain ⟨h0, h1⟩ := cnf_le_imp (selected ins) himp
+    have hcpos : 0 < sumCnf (selected ins) := by grind
+    have hwpos : 0 < sumImp (selected ins) := by grind
+    have ht : t = sumCnf (selected ins) / sumImp (selected ins) := by
+      have := congrArg Out.truth hout
+      simp at this; exact this.symm
+    rw [ht]
+    constructor
+    · have := (Rat.lt_div_iff hwpos).mpr (by grind : (0 : Rat) * sumImp (selected ins) < sumCnf (selected ins))
+      exact this
+    · apply Rat.not_lt.mp
+      intro hlt
+      have := (Rat.lt_div_iff hwpos).mp hlt
+      grind
+  · exact absurd (by rename_i hc; simp [hc]) hnd
+
 /-! ## falling back, never raising -/
 
 /-- nothing selected → every arbiter gives the default -/
